@@ -208,7 +208,7 @@ def requiredLevel (c : Ctx) (e : Event) : Int := c.pl.eventLevel e.type e.stateK
 
 /-- 1.3 `content.room_version` absent, or a recognised version (D13: recognised = registered in this library) -/
 def roomVersionRecognised (kvs : List (Bytes × JVal)) : Bool :=
-  match lookupField kvs b!"room_version" with
+  match lookupExact kvs b!"room_version" with
   | none => true
   | some .null => true
   | some (.str v) => knownRoomVersion v
@@ -217,10 +217,10 @@ def roomVersionRecognised (kvs : List (Bytes × JVal)) : Bool :=
 /-- 1.4 [v1–10] content has a `creator` (D13: a JSON string) -/
 def creatorPresent (d : Departures) (kvs : List (Bytes × JVal)) : Bool :=
   if d.d13_creatorString then
-    (match lookupField kvs b!"creator" with
+    (match lookupExact kvs b!"creator" with
      | some (.str _) => true
      | _ => false)
-  else (lookupField kvs b!"creator").isSome
+  else (lookupExact kvs b!"creator").isSome
 
 /-- a JSON string that is a user ID -/
 def userIDString (x : JVal) : Bool :=
@@ -230,7 +230,7 @@ def userIDString (x : JVal) : Bool :=
 
 /-- [v12] `additional_creators`, when present, is an array of valid user IDs -/
 def additionalCreatorsValid (kvs : List (Bytes × JVal)) : Bool :=
-  match lookupField kvs b!"additional_creators" with
+  match lookupExact kvs b!"additional_creators" with
   | none => true
   | some .null => true
   | some (.arr xs) => xs.all userIDString
@@ -476,16 +476,16 @@ def isIntegerMap (v : JVal) : Bool :=
 
 /-- 10.1 / 10.2 / 10.3 [v10+], written on the raw content, independently of any parser: each of the named levels, if
     present, is an integer literal; `users`, `events`, `notifications`, if present, are objects all of whose values are
-    integer literals.  (`null` is not an integer and not an object.  "Present" is as encoding/json reads a member:
-    `lookupField`.) -/
+    integer literals.  (`null` is not an integer and not an object.  "Present" = the content has a member of exactly
+    that name: the rules name `ban`, `users`, ... — `Ban` or `USERS` are other, unrelated members.) -/
 def integerContent (c : Option JVal) : Bool :=
   match contentFields c with
   | none => false
   | some kvs =>
-    namedLevelKeys.all (fun k => match lookupField kvs k with
+    namedLevelKeys.all (fun k => match lookupExact kvs k with
       | none => true
       | some v => isIntegerLiteral v)
-    && [b!"users", b!"events", b!"notifications"].all (fun k => match lookupField kvs k with
+    && [b!"users", b!"events", b!"notifications"].all (fun k => match lookupExact kvs k with
       | none => true
       | some v => isIntegerMap v)
 
@@ -520,7 +520,7 @@ def userKeysValid (d : Departures) (new : PowerLevels) : Bool :=
 def rawHas (ev : Option Event) (k : Bytes) : Bool :=
   match ev with
   | some x => (match contentFields x.content with
-               | some kvs => (lookupField kvs k).isSome
+               | some kvs => (lookupExact kvs k).isSome
                | none => false)
   | none => false
 
@@ -644,7 +644,7 @@ def inDomain (p : Provider) (e : Event) : Bool :=
   && (if e.type == b!"m.room.create" then
         ((specVersion? e.ver).map (·.createRules) == some 3 || (domainFromID (e.roomID.drop 1)).isSome)
         && (match contentFields e.content with
-            | some kvs => (decStringSlice (lookupField kvs b!"additional_creators")).val.getD [] |>.all
+            | some kvs => (decStringSlice (lookupExact kvs b!"additional_creators")).val.getD [] |>.all
                             (fun u => (parseUserID? u).isSome)
             | none => true)
       else if e.type == b!"m.room.aliases" then true
